@@ -123,6 +123,12 @@ theorem guard_exec (e : Env) (tape : Array UInt64) (off lim : Nat) (t : UInt8) (
       rcases h with h | h | h | h | h <;> simp [← h]
     simp [h1, h4, h5, ht, ht', errRet]
 
+theorem u8lit (c t : UInt8) : (Val.u8 c == Val.u8 t) = decide (t = c) := by
+  by_cases h : t = c
+  · simp [h]
+  · have : ¬ c = t := fun hh => h hh.symm
+    simp [h, this]
+
 /-- clauses and default of the reconstruction switch -/
 def mainCases : List (List Expr × List Stmt) := match mainSw with | .switch _ cs _ => cs | _ => []
 def mainDflt : List Stmt := match mainSw with | .switch _ _ d => d | _ => []
@@ -145,8 +151,210 @@ theorem mainSw_select (e : Env) (tape : Array UInt64) (t : UInt8) (fuel : Nat) (
   simp only [evalE, h5]
   simp only [caseBody, mainCases, mainDflt, mainSw, loopBody, goDeserialize_rebuild, List.getD_cons_zero,
     List.getD_cons_succ, List.getD_eq_getElem?_getD, List.getElem?_cons_zero, List.getElem?_cons_succ, Option.getD_some]
-  simp only [execCases, evalEs, evalE, isOneOf]
-  trace_state
-  sorry
+  simp only [execCases, evalEs, evalE, isOneOf, u8lit, Bool.or_false, Bool.or_eq_true, decide_eq_true_eq,
+    UInt8.reduceOfNat, clauseOf]
+  by_cases h0 : t = 78
+  · simp only [h0, if_true]; rfl
+  by_cases h1 : t = 34
+  · simp only [h0, h1, if_true, if_false]; rfl
+  by_cases h2 : t = 100 ∨ t = 108 ∨ t = 117
+  · simp only [h0, h1, h2, if_true, if_false]; rfl
+  by_cases h3 : t = 101
+  · simp only [h0, h1, h2, h3, if_true, if_false]; rfl
+  by_cases h4 : t = 110 ∨ t = 116 ∨ t = 102 ∨ t = 0
+  · simp only [h0, h1, h2, h3, h4, if_true, if_false]; rfl
+  by_cases h5 : t = 123 ∨ t = 91
+  · simp only [h0, h1, h2, h3, h4, h5, if_true, if_false]; rfl
+  by_cases h6 : t = 114
+  · simp only [h0, h1, h2, h3, h4, h5, h6, if_true, if_false]; rfl
+  by_cases h7 : t = 125 ∨ t = 93
+  · simp only [h0, h1, h2, h3, h4, h5, h6, h7, if_true, if_false]; rfl
+  simp only [h0, h1, h2, h3, h4, h5, h6, h7, if_true, if_false]
+  simp
+
+theorem exec_single (funs : String → Option FunDef) (fuel : Nat) (st : Stmt) (s : St) :
+    exec funs fuel [st] s = exec1 funs fuel st s := by
+  rw [exec]
+  cases exec1 funs fuel st s <;> simp
+
+/-- `case TagString` -/
+theorem clause1_sim (values : Bytes) (e : Env) (s : RebState) (t : UInt8) (fuel : Nat)
+    (hR : Rep values e s) (hT : TagVars t e) (hlt : s.off + 1 < s.tape.size) :
+    StepSim values (fun _ => True) (exec goFuns fuel (caseBody 1) ⟨e, s.tape⟩)
+      (if values.size - s.vpos < 16 then .error .generic else do
+        let tp ← wr s.tape s.off ((t.toUInt64 <<< 56) ||| rdLE64 values s.vpos)
+        let tp ← wr tp (s.off + 1) (rdLE64 values (s.vpos + 8))
+        .ok { s with tape := tp, off := s.off + 2, vpos := s.vpos + 16 }) := by
+  obtain ⟨h1, h2, h3, h4⟩ := hR
+  obtain ⟨h5, h6⟩ := hT
+  have hbody : caseBody 1 = [
+      .ite (.bin .lt (.lenB (.v "values")) (.int 16)) errRet [],
+      .assign "sOffset" (.le64 (.sliceB (.v "values") (.int 0) (.int 8))),
+      .assign "sLen" (.le64 (.sliceB (.v "values") (.int 8) (.int 16))),
+      .assign "values" (.sliceB (.v "values") (.int 16) (.lenB (.v "values"))),
+      .tapeSet "dst" (.v "off") (.bin .or (.v "tagDst") (.v "sOffset")),
+      .tapeSet "dst" (.bin .add (.v "off") (.int 1)) (.v "sLen"),
+      .assign "off" (.bin .add (.v "off") (.int 2))] := rfl
+  rw [hbody]
+  by_cases hl : values.size - s.vpos < 16
+  · rw [if_pos hl]
+    have hl' : ((values.size - s.vpos : Nat) : Int) < 16 := by omega
+    refine ⟨⟨e, s.tape⟩, true, ?_⟩
+    simp [h3, errRet, hl, hl']
+  · rw [if_neg hl]
+    have hw1 : s.off < s.tape.size := by omega
+    simp only [wr, hw1, dite_true, Res.bind_ok, Array.size_set, hlt, StepSim, Rep]
+    have hvs : (values.extract s.vpos values.size).size = values.size - s.vpos := size_suffix _ _
+    have hlo := leU64_suffix_lo values s.vpos (by omega)
+    have hhi := leU64_suffix_hi values s.vpos (by omega)
+    have hrest := suffix_suffix values s.vpos 16 (by omega)
+    rw [← hvs] at hrest
+    rw [← hlo, ← hhi, ← hrest]
+    generalize values.extract s.vpos values.size = v at *
+    have a1 : (8 : Int) ≤ v.size := by omega
+    have a2 : (16 : Int) ≤ v.size := by omega
+    have a3 : min 8 v.size = 8 := by omega
+    have a4 : min 16 v.size = 16 := by omega
+    have a5 : ¬ ((v.size : Int) < 16) := by omega
+    have a6 : (s.off : Int) + 1 < s.tape.size := by omega
+    have a7 : (s.off : Int) < s.tape.size := by omega
+    have a8 : (0 : Int) ≤ s.off + 1 := by omega
+    simp [h1, h2, h3, h4, h5, h6, errRet, a1, a2, a3, a4, a5, a6, a7, a8, hw1, hlt, Rep]
+    trace_state
+    sorry
+
+/-- `case TagNop` -/
+theorem clause0_sim (values : Bytes) (e : Env) (s : RebState) (t : UInt8) (fuel : Nat)
+    (hR : Rep values e s) :
+    StepSim values (fun _ => True) (exec goFuns fuel (caseBody 0) ⟨e, s.tape⟩)
+      (.ok { s with nSkips := s.nSkips + 1 }) := by
+  obtain ⟨h1, h2, h3, h4⟩ := hR
+  have hbody : caseBody 0 = [.assign "nSkips" (.bin .add (.v "nSkips") (.int 1))] := rfl
+  rw [hbody]
+  simp [h1, h2, h3, h4, StepSim, Rep]
+
+/-- `case TagFloat, TagInteger, TagUint` -/
+theorem clause2_sim (values : Bytes) (e : Env) (s : RebState) (t : UInt8) (fuel : Nat)
+    (hR : Rep values e s) (hT : TagVars t e) (hlt : s.off + 1 < s.tape.size) :
+    StepSim values (fun _ => True) (exec goFuns fuel (caseBody 2) ⟨e, s.tape⟩)
+      (if values.size - s.vpos < 8 then .error .generic else do
+        let tp ← wr s.tape s.off (t.toUInt64 <<< 56)
+        let tp ← wr tp (s.off + 1) (rdLE64 values s.vpos)
+        .ok { s with tape := tp, off := s.off + 2, vpos := s.vpos + 8 }) := by
+  obtain ⟨h1, h2, h3, h4⟩ := hR
+  obtain ⟨h5, h6⟩ := hT
+  have hbody : caseBody 2 = [
+      .ite (.bin .lt (.lenB (.v "values")) (.int 8)) errRet [],
+      .tapeSet "dst" (.v "off") (.v "tagDst"),
+      .tapeSet "dst" (.bin .add (.v "off") (.int 1)) (.le64 (.sliceB (.v "values") (.int 0) (.int 8))),
+      .assign "values" (.sliceB (.v "values") (.int 8) (.lenB (.v "values"))),
+      .assign "off" (.bin .add (.v "off") (.int 2))] := rfl
+  rw [hbody]
+  by_cases hl : values.size - s.vpos < 8
+  · rw [if_pos hl]
+    have hl' : ((values.size - s.vpos : Nat) : Int) < 8 := by omega
+    refine ⟨⟨e, s.tape⟩, true, ?_⟩
+    simp [h3, errRet, hl, hl']
+  · rw [if_neg hl]
+    have hw1 : s.off < s.tape.size := by omega
+    simp only [wr, hw1, dite_true, Res.bind_ok, Array.size_set, hlt, StepSim, Rep]
+    have hvs : (values.extract s.vpos values.size).size = values.size - s.vpos := size_suffix _ _
+    have hlo := leU64_suffix_lo values s.vpos (by omega)
+    have hrest := suffix_suffix values s.vpos 8 (by omega)
+    rw [← hvs] at hrest
+    rw [← hlo, ← hrest]
+    generalize values.extract s.vpos values.size = v at *
+    have a1 : (8 : Int) ≤ v.size := by omega
+    have a3 : min 8 v.size = 8 := by omega
+    have a5 : ¬ ((v.size : Int) < 8) := by omega
+    have a6 : (s.off : Int) + 1 < s.tape.size := by omega
+    have a7 : (s.off : Int) < s.tape.size := by omega
+    have a8 : (0 : Int) ≤ s.off + 1 := by omega
+    simp [h1, h2, h3, h4, h5, h6, errRet, a1, a3, a5, a6, a7, a8, hw1, hlt, Rep]
+
+/-- `case tagFloatWithFlag` -/
+theorem clause3_sim (values : Bytes) (e : Env) (s : RebState) (t : UInt8) (fuel : Nat)
+    (hR : Rep values e s) (hlt : s.off + 1 < s.tape.size) :
+    StepSim values (fun _ => True) (exec goFuns fuel (caseBody 3) ⟨e, s.tape⟩)
+      (if values.size - s.vpos < 16 then .error .generic else do
+        let tp ← wr s.tape s.off (rdLE64 values s.vpos)
+        let tp ← wr tp (s.off + 1) (rdLE64 values (s.vpos + 8))
+        .ok { s with tape := tp, off := s.off + 2, vpos := s.vpos + 16 }) := by
+  obtain ⟨h1, h2, h3, h4⟩ := hR
+  have hbody : caseBody 3 = [
+      .ite (.bin .lt (.lenB (.v "values")) (.int 16)) errRet [],
+      .tapeSet "dst" (.v "off") (.le64 (.sliceB (.v "values") (.int 0) (.int 8))),
+      .tapeSet "dst" (.bin .add (.v "off") (.int 1)) (.le64 (.sliceB (.v "values") (.int 8) (.int 16))),
+      .assign "values" (.sliceB (.v "values") (.int 16) (.lenB (.v "values"))),
+      .assign "off" (.bin .add (.v "off") (.int 2))] := rfl
+  rw [hbody]
+  by_cases hl : values.size - s.vpos < 16
+  · rw [if_pos hl]
+    have hl' : ((values.size - s.vpos : Nat) : Int) < 16 := by omega
+    refine ⟨⟨e, s.tape⟩, true, ?_⟩
+    simp [h3, errRet, hl, hl']
+  · rw [if_neg hl]
+    have hw1 : s.off < s.tape.size := by omega
+    simp only [wr, hw1, dite_true, Res.bind_ok, Array.size_set, hlt, StepSim, Rep]
+    have hvs : (values.extract s.vpos values.size).size = values.size - s.vpos := size_suffix _ _
+    have hlo := leU64_suffix_lo values s.vpos (by omega)
+    have hhi := leU64_suffix_hi values s.vpos (by omega)
+    have hrest := suffix_suffix values s.vpos 16 (by omega)
+    rw [← hvs] at hrest
+    rw [← hlo, ← hhi, ← hrest]
+    generalize values.extract s.vpos values.size = v at *
+    have a1 : (8 : Int) ≤ v.size := by omega
+    have a2 : (16 : Int) ≤ v.size := by omega
+    have a3 : min 8 v.size = 8 := by omega
+    have a4 : min 16 v.size = 16 := by omega
+    have a5 : ¬ ((v.size : Int) < 16) := by omega
+    have a6 : (s.off : Int) + 1 < s.tape.size := by omega
+    have a7 : (s.off : Int) < s.tape.size := by omega
+    have a8 : (0 : Int) ≤ s.off + 1 := by omega
+    simp [h1, h2, h3, h4, errRet, a1, a2, a3, a4, a5, a6, a7, a8, hw1, hlt, Rep]
+
+/-- `case TagNull, TagBoolTrue, TagBoolFalse, TagEnd` -/
+theorem clause4_sim (values : Bytes) (e : Env) (s : RebState) (t : UInt8) (fuel : Nat)
+    (hR : Rep values e s) (hT : TagVars t e) (hlt : s.off < s.tape.size) :
+    StepSim values (fun _ => True) (exec goFuns fuel (caseBody 4) ⟨e, s.tape⟩)
+      (do
+        let tp ← wr s.tape s.off (t.toUInt64 <<< 56)
+        .ok { s with tape := tp, off := s.off + 1 }) := by
+  obtain ⟨h1, h2, h3, h4⟩ := hR
+  obtain ⟨h5, h6⟩ := hT
+  have hbody : caseBody 4 = [
+      .tapeSet "dst" (.v "off") (.v "tagDst"),
+      .assign "off" (.bin .add (.v "off") (.int 1))] := rfl
+  rw [hbody]
+  have a7 : (s.off : Int) < s.tape.size := by omega
+  simp only [wr, hlt, dite_true, Res.bind_ok, Array.size_set, StepSim, Rep]
+  simp [h1, h2, h3, h4, h5, h6, a7, hlt]
+
+/-- `case TagObjectEnd, TagArrayEnd` -/
+theorem clause7_sim (values : Bytes) (e : Env) (s : RebState) (t : UInt8) (fuel : Nat)
+    (hR : Rep values e s) (hT : TagVars t e) (hlt : s.off < s.tape.size) :
+    StepSim values (fun _ => True) (exec goFuns fuel (caseBody 7) ⟨e, s.tape⟩)
+      (do
+        let cur ← rd s.tape s.off
+        if cur &&& wJSONTAGMASK != t.toUInt64 <<< 56 then .error .generic
+        else .ok { s with off := s.off + 1 }) := by
+  obtain ⟨h1, h2, h3, h4⟩ := hR
+  obtain ⟨h5, h6⟩ := hT
+  have hbody : caseBody 7 = [
+      .ite (.bin .ne (.bin .and (.tapeAt "dst" (.v "off")) (.u64 18374686479671623680)) (.v "tagDst")) errRet [],
+      .assign "off" (.bin .add (.v "off") (.int 1))] := rfl
+  rw [hbody]
+  have a7 : (s.off : Int) < s.tape.size := by omega
+  have hr : s.tape[s.off]? = some s.tape[s.off] := by simp [hlt]
+  simp only [rd, hr, Res.bind_ok]
+  generalize s.tape[s.off] = cur at hr
+  by_cases hm : (cur &&& wJSONTAGMASK != t.toUInt64 <<< 56) = true
+  · rw [if_pos hm]
+    refine ⟨⟨e, s.tape⟩, true, ?_⟩
+    simp only [wJSONTAGMASK] at hm
+    simp [h1, h4, h6, a7, hlt, hr, hm, errRet]
+  · rw [if_neg hm]
+    simp only [wJSONTAGMASK, Bool.not_eq_true] at hm
+    simp [h1, h2, h3, h4, h6, a7, hlt, hr, hm, errRet, StepSim, Rep]
 
 end SJ.GoRebuild
